@@ -155,6 +155,74 @@ def r09_5(ctx, counts) -> RuleResult:
     return res
 
 
+def r09_6(ctx, counts) -> RuleResult:
+    """every regex character class that spells the XML Char production spells it exactly"""
+    import re._parser as sre_parse      # stdlib regex parser: parses text, runs nothing
+    import re._constants as sre_c
+    model = ctx.model
+    res = RuleResult(
+        'R09.6', 'XML-CHAR-CLASS-EXACT',
+        'XML 1.0 production [2] Char is #x9 | #xA | #xD | [#x20-#xD7FF] | [#xE000-#xFFFD] | '
+        '[#x10000-#x10FFFF]. Besides is_xml_codepoint (R09.3) the package may spell the same set '
+        'as a regex character class. Every string constant of the package that is a regex class '
+        'with U+D7FF and U+E000 among its range end points (the fingerprint of the production: '
+        'the surrogate gap) is parsed with the stdlib regex parser and the set it denotes — '
+        'complemented when the class is negated — must equal the production. A class written '
+        'with a 4-digit escape followed by a digit ("\\u10000-\\u10FFFF" is U+1000, "0", '
+        '"-", U+10FF, "F", "F") loses every supplementary-plane character.')
+    want = _merge(XML_CHAR)
+    n = 0
+    for mname, mod in sorted(model.modules.items()):
+        for c in ast.walk(mod.tree):
+            if not (isinstance(c, ast.Constant) and isinstance(c.value, str)):
+                continue
+            v = c.value
+            if '\ud7ff' not in v or '\ue000' not in v or '[' not in v:
+                continue
+            try:
+                parsed = sre_parse.parse(v)
+            except Exception as err:
+                raise AnalysisError(f'{mod.relpath}:{c.lineno}: regex does not parse: {err}')
+            classes = [av for op, av in parsed if op is sre_c.IN]
+            for items in classes:
+                neg = any(op is sre_c.NEGATE for op, _ in items)
+                iv = []
+                for op, av in items:
+                    if op is sre_c.LITERAL:
+                        iv.append((av, av))
+                    elif op is sre_c.RANGE:
+                        iv.append((av[0], av[1]))
+                    elif op is sre_c.NEGATE:
+                        continue
+                    else:
+                        raise AnalysisError(f'{mod.relpath}:{c.lineno}: class item {op} not '
+                                            f'modelled')
+                got = _merge(iv)
+                if not any(hi == 0xD7FF for _, hi in iv) and not any(lo == 0xE000 for lo, _ in iv):
+                    continue
+                n += 1
+                ok = got == want
+                res.instances.append(f'{mod.relpath}:{c.lineno}: class '
+                                     f'{"(negated) " if neg else ""}denotes '
+                                     f'{[(hex(a), hex(b)) for a, b in got][:7]} equals Char={ok}')
+                if ok:
+                    res.ok()
+                else:
+                    missing = [x for x in want if x not in got]
+                    res.fail(Finding('R09.6', mod.relpath, '<module>', 'XML Char class differs',
+                                     f'the character class at line {c.lineno} has the shape of '
+                                     f'the XML Char production but denotes '
+                                     f'{[(hex(a), hex(b)) for a, b in got]}: the ranges '
+                                     f'{[(hex(a), hex(b)) for a, b in missing]} of the '
+                                     f'production are not in it (supplementary-plane characters '
+                                     f'are replaced or escaped as if they were not XML '
+                                     f'characters)', c.lineno))
+    res.instances.append(f'{n} regex spelling(s) of the XML Char production in the package')
+    res.ok()
+    counts['xml_char_regex_classes'] = n
+    return res
+
+
 def r09_3(ctx, counts) -> RuleResult:
     import ast as _ast
     model = ctx.model
@@ -342,7 +410,8 @@ def run(ctx) -> dict:
             r2.ok()
     counts['uri_functions'] = n
     return {
-        'results': [r1, r2, r09_3(ctx, counts), r09_4(ctx, counts), r09_5(ctx, counts)],
+        'results': [r1, r2, r09_3(ctx, counts), r09_4(ctx, counts), r09_5(ctx, counts),
+                    r09_6(ctx, counts)],
         'counts': counts,
         'explanation':
             'Decided statically: fn:substring rounds its start/length half up (through the '
